@@ -10,6 +10,7 @@ CONSTANTS
   FreshStore = FALSE
   RewindsSeekable = FALSE
   FlagsReset = TRUE
+  PipeClosedOnStop = TRUE
   MaxRecs = 2
   MaxFields = 2
   FieldIds = {1, 2}
